@@ -320,6 +320,16 @@ def apply_cases(ctx, rnd):
             for form in ('mul', 'rmul', 'div'):
                 cs.append(dict(op='money_rate', form=form, kind='mul' if form != 'div' else 'div', cur=cur,
                                an=5, ad=1, r=r, mode='ROUND_HALF_EVEN', rep='dec'))
+        # the rate object produced by the library itself (inverted once / twice): whatever it stores is what counts
+        for via in ('inv', 'inv2'):
+            for form in ('mul', 'rmul', 'div'):
+                uc, tc = (r['tc'], r['uc']) if via == 'inv' else (r['uc'], r['tc'])
+                cur_ok = uc if form != 'div' else tc
+                for mode in (MODES if not quick else MODES[::3]):
+                    for n in (1, 7, 125, 999, 12345, -5, -999):
+                        a = F(n, 10 ** md[cur_ok])
+                        cs.append(dict(op='money_rate', form=form, kind='mul' if form != 'div' else 'div', cur=cur_ok,
+                                       an=a.numerator, ad=a.denominator, r=r, via=via, mode=mode, rep='dec'))
     return cs
 
 
